@@ -168,7 +168,7 @@ Definition match_type (g : grammar) (relname : str) : option (str * str) :=
 
 (* ---------------------------------------------------------------- parse -- *)
 Inductive err := EUnbalanced | EUnknownCpt | ETooMany | EMissingNode | EMissingArg
-               | EAfterNamed | EUnknownParam | EAssigned | EIndex | EOptsBraces | EInclude | EEmptyNs.
+               | EAfterNamed | EUnknownParam | EAssigned | EIndex | EOptsBraces | EInclude | EEmptyNs | EUnknownKw.
 Inductive res (A : Type) := Ok (a : A) | Err (e : err).
 Arguments Ok {A}. Arguments Err {A}.
 Definition bind {A B} (x : res A) (f : A -> res B) : res B :=
@@ -180,7 +180,7 @@ Definition err_eqb (a b : err) : bool :=
   | EUnbalanced, EUnbalanced | EUnknownCpt, EUnknownCpt | ETooMany, ETooMany
   | EMissingNode, EMissingNode | EMissingArg, EMissingArg | EAfterNamed, EAfterNamed
   | EUnknownParam, EUnknownParam | EAssigned, EAssigned | EIndex, EIndex
-  | EOptsBraces, EOptsBraces | EInclude, EInclude | EEmptyNs, EEmptyNs => true
+  | EOptsBraces, EOptsBraces | EInclude, EInclude | EEmptyNs, EEmptyNs | EUnknownKw, EUnknownKw => true
   | _, _ => false
   end.
 
@@ -351,11 +351,14 @@ Fixpoint oval_str (top : bool) (v : oval) : str :=
   | OList l => ch 91 :: join (s2l ", ") (map (oval_str false) l) ++ [ch 93]
   end.
 (* Opts.format *)
-Definition opt_fmt (kv : str * oval) : str :=
-  match snd kv with
-  | OStr [] => fst kv
-  | v => fst kv ++ [EQ] ++ oval_str true v
+(* fmt(key, val): a list (the def option) gives one key=value per element *)
+Fixpoint opt_fmt_v (k : str) (v : oval) : str :=
+  match v with
+  | OStr [] => k
+  | OList l => join (s2l ", ") (map (opt_fmt_v k) l)
+  | v => k ++ [EQ] ++ oval_str true v
   end.
+Definition opt_fmt (kv : str * oval) : str := opt_fmt_v (fst kv) (snd kv).
 Definition opts_format (o : opts) : str := join (s2l ", ") (map opt_fmt o).
 
 (* --------------------------------------------------------------- circuit -- *)
@@ -394,6 +397,8 @@ Definition parse_cpt (g : grammar) (st : cstate) (ns net name : str) (fields : l
       match assoc_get cpt_type (g_dict g) with
       | Some (r0 :: rs) =>
           let '(r, kw, leak) := select (r0 :: rs) fields r0 None in
+          (* `if keyword == '' and rule.pos is not None and len(fields) > rule.pos: raise ValueError('Unknown keyword ...')` *)
+          if is_nil kw && (match r_pos r with Some p => p <? length fields | None => false end) then Err EUnknownKw else
           let '(relname', st') :=
             if (is_nil cpt_id && str_in cpt_type anon_types) || str_eqb cpt_id [QM]
             then make_anon st cpt_type else (relname, st) in
